@@ -342,6 +342,7 @@ func runSyncCase(r *rng, stats map[string]int) (string, map[string]any, bool) {
 		nPersist    = 1 + r.intn(2)
 		nClosers    = 1 + r.intn(2)
 		nRequesters = r.intn(3)
+		issued      = map[string]bool{}
 	)
 	note := func(kind int, err error, started bool) {
 		mu.Lock()
@@ -387,7 +388,13 @@ func runSyncCase(r *rng, stats map[string]int) (string, map[string]any, bool) {
 				after := isClosed()
 				quit := make(chan struct{})
 				tm := time.AfterFunc(300*time.Millisecond, func() { close(quit) })
-				note(1, client.Publish(quit, wr.bytes(wr.intn(5)), "t"), after)
+				// topic and payload identify the call: what goes on the wire must be one of these
+				topic := fmt.Sprintf("p%d/%s", w, strings.Repeat("x", 3*w+i%4))
+				payload := append([]byte{byte(w), byte(i)}, wr.bytes(wr.intn(6))...)
+				mu.Lock()
+				issued[topic+"\x00"+string(payload)] = true
+				mu.Unlock()
+				note(1, client.Publish(quit, payload, topic), after)
 				if !tm.Stop() {
 					<-quit
 				}
@@ -481,6 +488,44 @@ func runSyncCase(r *rng, stats map[string]int) (string, map[string]any, bool) {
 		calls = append(calls, apiObs{0, 3, classOf(errHung), false})
 		mu.Unlock()
 		stats["hung"]++
+	}
+
+	// C08 under concurrency: every connection carries whole packets, and every QoS 0 PUBLISH on
+	// the wire is one that some Publish call asked for, unmodified (observation kind 8)
+	wireBad := 0
+	for _, c := range dialer.conns {
+		c.mu.Lock()
+		b := append([]byte(nil), c.written...)
+		c.mu.Unlock()
+		for len(b) >= 2 {
+			size, n, ok := remlen(b[1:])
+			if !ok {
+				wireBad++
+				break
+			}
+			if len(b) < 1+n+size {
+				break // an incomplete last packet: the connection was given up
+			}
+			pkt := b[:1+n+size]
+			b = b[1+n+size:]
+			if pkt[0]>>4 == 3 && pkt[0]&6 == 0 {
+				body := pkt[1+n:]
+				if len(body) < 2 || len(body) < 2+int(body[0])<<8+int(body[1]) {
+					wireBad++
+					continue
+				}
+				tl := int(body[0])<<8 + int(body[1])
+				if !issued[string(body[2:2+tl])+"\x00"+string(body[2+tl:])] {
+					wireBad++
+				}
+			}
+		}
+	}
+	mu.Lock()
+	calls = append(calls, apiObs{0, 8, uint64(wireBad), false})
+	mu.Unlock()
+	if wireBad != 0 {
+		stats["wire:bad"]++
 	}
 
 	// render
@@ -895,6 +940,10 @@ func dialsSeen(rec *syncRec) int {
 }
 
 func runSync(name, runFn string, withF7 bool, tier string, seed uint64, out string) error {
+	if name == "SYNC08" {
+		// one P: a buffer returned to the sync.Pool by one goroutine is what the next one gets
+		defer runtime.GOMAXPROCS(runtime.GOMAXPROCS(1))
+	}
 	n := 80
 	if tier == "thorough" {
 		n = 1500
@@ -1569,3 +1618,135 @@ func drainClosed(client *mqtt.Client) {
 		}
 	}
 }
+
+// runAckDuringWrite (C13): a hostile broker acknowledges the identifier that is next in line
+// while the PUBLISH carrying it is still being written, and the write then fails. No call may
+// panic (F27: the submitter sent its error on the exchange channel the PUBACK had closed).
+func runAckDuringWrite(stats map[string]int, level int) (string, map[string]any) {
+	waitQuiet()
+	rec := &syncRec{}
+	mqtt.VerifEvent = rec.hook
+	defer func() { mqtt.VerifEvent = defaultHook }()
+	log := &evlog{}
+	store := newSimStore(log)
+	inPub, failNow := make(chan struct{}), make(chan struct{})
+	var onceP sync.Once
+	acks := make(chan []byte, 4)
+	dialer := &simDialer{log: log}
+	dialer.onDial = func(id int) (*simConn, bool) {
+		if id != 0 || len(dialer.conns) != 0 {
+			return nil, false
+		}
+		c := &simConn{closedCh: make(chan struct{})}
+		sent := false
+		c.onRead = func(c *simConn, armed bool, want int) readAns {
+			if !sent {
+				sent = true
+				return readAns{kind: rData, data: []byte{0x20, 2, 0, 0}}
+			}
+			c.mu.Unlock()
+			defer c.mu.Lock()
+			select {
+			case a := <-acks:
+				return readAns{kind: rData, data: a}
+			case <-c.closedCh:
+				return readAns{kind: rClosed}
+			}
+		}
+		c.onWrite = func(c *simConn, p []byte) writeAns {
+			if p[0]>>4 == 3 {
+				first := false
+				onceP.Do(func() { first = true })
+				if first {
+					close(inPub)
+					c.mu.Unlock()
+					<-failNow
+					c.mu.Lock()
+					return writeAns{kind: wHard, n: 0}
+				}
+			}
+			return writeAns{kind: wOk, n: len(p)}
+		}
+		return c, true
+	}
+	cfg := mqtt.Config{Dialer: dialer.dial, AtLeastOnceMax: 4, ExactlyOnceMax: 4}
+	client, err := mqtt.InitSession("adw", store, &cfg)
+	if err != nil {
+		panic(err)
+	}
+	s := &schedCalls{}
+	const limit = 5 * time.Second
+	rres := make(chan error, 8)
+	stop := make(chan struct{})
+	readerExited := make(chan struct{})
+	rg := make(chan int, 1)
+	go func() {
+		defer close(readerExited)
+		rg <- gid()
+		for {
+			err := safelyNow(func() error { _, _, err := client.ReadSlices(); return err })
+			rres <- err
+			if errors.Is(err, mqtt.ErrClosed) || err == errPanic {
+				return
+			}
+			select {
+			case <-stop:
+			default:
+			}
+		}
+	}()
+	g := <-rg
+	if waitCh(client.Online(), limit) {
+		var waitP func(time.Duration) bool
+		if level == 1 {
+			waitP = s.start(2, func() error { _, err := client.PublishAtLeastOnce([]byte("x"), "t"); return err })
+		} else {
+			waitP = s.start(2, func() error { _, err := client.PublishExactlyOnce([]byte("x"), "t"); return err })
+		}
+		if waitCh(inPub, limit) {
+			if level == 1 {
+				acks <- []byte{0x40, 2, 0x80, 0x00} // PUBACK for the identifier next in line
+			} else {
+				acks <- []byte{0x50, 2, 0xc0, 0x00} // PUBREC
+			}
+			time.Sleep(100 * time.Millisecond) // the read routine applies it
+		}
+		close(failNow)
+		if !waitP(limit) {
+			stats["adw:hung"]++
+		}
+	} else {
+		close(failNow)
+	}
+	done := make(chan struct{})
+	go func() { client.Close(); close(done) }()
+	waitCh(done, limit)
+	close(stop)
+	waitCh(readerExited, limit)
+	for {
+		select {
+		case err := <-rres:
+			s.note(g, 0, err, false)
+			continue
+		default:
+		}
+		break
+	}
+	return renderSched(rec, s, fmt.Sprintf("the broker acknowledges a QoS %d PUBLISH that is still being written; then the write fails", level))
+}
+
+func runSync13(tier string, seed uint64, out string) error {
+	cs := newCaseSet("SYNC13", "SyncCheck", "synccase", "sync_run_c13")
+	stats := map[string]int{}
+	for i, level := range []int{1, 2} {
+		term, desc := runAckDuringWrite(stats, level)
+		desc["index"] = -1 - i
+		cs.add(term, desc, "sync-run", true)
+	}
+	for k, v := range stats {
+		cs.dist[k] = v
+	}
+	return cs.write(out, 5)
+}
+
+func init() { runners["SYNC13"] = runSync13 }
